@@ -46,6 +46,8 @@ func (row *BrokerRow) FromBlock(block []byte) {
 	size := flatbuffers.GetSizePrefix(row.buffer, 0)
 	partition := row.buffer[flatbuffers.SizeUOffsetT : flatbuffers.SizeUOffsetT+size]
 	row.m.Init(partition, flatbuffers.GetUOffsetT(partition))
+	// rows are recycled with their batch: forget the verdict about the previous occupant
+	row.IsOutOfTimeRange = false
 }
 
 func (row *BrokerRow) Metric() flatMetricsV1.Metric { return row.m }
